@@ -78,14 +78,21 @@ try:
     _TARGETS.append(("dateutil", _dtz.gettz("Europe/Paris")))
 except Exception:  # noqa: BLE001
     pass
+# the format() protocol with strftime specifications, also where every directive sits inside square brackets
+_SPECS = ["%Y-%m-%d %H:%M:%S", "[%Y-%m-%d %H:%M:%S]", "[%H:%M:%S.%f]", "[log] %H:%M", "[%a] %d %b [%Y]", "%%Y [%j]", ""]
+ACC += [("format(%r)" % sp, (lambda sp: (lambda d: (format(d, sp), "{:{}}".format(d, sp) if sp else "{}".format(d))))(sp)) for sp in _SPECS]
 ACC += [("astimezone[%s]" % n, (lambda t: (lambda d: _view(d.astimezone(t))))(t)) for n, t in _TARGETS]
 DACC = [("isoformat", lambda d: d.isoformat()), ("strftime", lambda d: d.strftime("%Y-%m-%d %j %a %A %U %W %G %V %u %y %b %B %x")),
         ("timetuple", lambda d: tuple(d.timetuple())), ("toordinal", lambda d: d.toordinal()), ("weekday", lambda d: d.weekday()),
         ("isoweekday", lambda d: d.isoweekday()), ("isocalendar", lambda d: tuple(d.isocalendar())), ("ctime", lambda d: d.ctime()),
         ("hash", hash)]
+DACC_EXTRA = [("format(%r)" % sp, (lambda sp: (lambda d: format(d, sp)))(sp)) for sp in ("%Y-%m-%d", "[%Y-%m-%d]", "[%a] %d %b [%Y]", "[x] %j")]
+TACC_EXTRA = [("format(%r)" % sp, (lambda sp: (lambda t: format(t, sp)))(sp)) for sp in ("%H:%M:%S", "[%H:%M:%S.%f]", "[at] %H.%M", "[%p]")]
 TACC = [("isoformat", lambda t: t.isoformat()), ("isoformat_ms", lambda t: t.isoformat("milliseconds")),
         ("strftime", lambda t: t.strftime("%H:%M:%S.%f %z %Z %p %I")), ("utcoffset", lambda t: t.utcoffset()), ("tzname", lambda t: t.tzname()),
         ("dst", lambda t: t.dst()), ("hash", hash), ("fields", fields)]
+DACC += DACC_EXTRA
+TACC += TACC_EXTRA
 OPS = [("lt", op.lt), ("le", op.le), ("gt", op.gt), ("ge", op.ge), ("eq", op.eq), ("ne", op.ne)]
 
 
